@@ -30,7 +30,7 @@ def run(ctx):
     ctx.run_rule("S3", r_state.rule_S3, cfgs)
     try:
         import r_c
-        if hasattr(r_c, "rule_G5c"):
-            ctx.run_rule("G5c", r_c.rule_G5c)
+        if hasattr(r_c, "rule_G5C"):
+            ctx.run_rule("G5C", r_c.rule_G5C)
     except ImportError:
         pass
